@@ -76,42 +76,7 @@ func runC04(c *eng.Ctx) {
 			}
 			r4.Check(ok, f.Key+" combine-stop-predicate", call.Pos(), "tasks with a different AllowFailure are not merged", detail+": a failed run of [allowFailure, !allowFailure] is reported as Success and the contexts of the binding that does not allow failure are discarded")
 		}
-		// R5
-		bcField := p.Field(pkgMeta, "HookMetadata", "BindingContext")
-		combBC := p.Field(pkgOp, "CombineResult", "BindingContexts")
-		updateMeta := p.Method(pkgTask, "Task", "UpdateMetadata")
-		handleRun := p.Method(pkgOp, "ShellOperator", "handleRunHook")
-		var store *eng.GNode
-		var metaVar types.Object
-		for _, n := range g.Nodes {
-			as, ok := n.Node.(*ast.AssignStmt)
-			if ok && len(as.Lhs) == 1 && eng.IsField(info, as.Lhs[0], bcField) && eng.IsField(info, as.Rhs[0], combBC) {
-				store = n
-				if s, isS := ast.Unparen(as.Lhs[0]).(*ast.SelectorExpr); isS {
-					metaVar = eng.SelObj(info, s.X)
-				}
-			}
-		}
-		if len(calls) > 0 {
-			if store == nil {
-				r5.Bad(f.Key+" combined-contexts-stored", f.Decl.Pos(), "the combined binding contexts are never stored in the task metadata")
-			} else {
-				isUpdate := func(n *eng.GNode) bool {
-					return len(g.CallsAt(n, func(o types.Object, call *ast.CallExpr) bool {
-						return o == updateMeta && len(call.Args) == 1 && eng.SelObj(info, call.Args[0]) == metaVar
-					})) > 0
-				}
-				reach := g.Reach(eng.Query{From: []*eng.GNode{store}, AvoidNode: isUpdate})
-				bad := false
-				for n := range reach {
-					if len(g.CallsAt(n, isObj(handleRun))) > 0 {
-						bad = true
-					}
-				}
-				r5.Check(!bad, f.Key+" combined-contexts-written-back", store.Node.Pos(), "UpdateMetadata(hookMeta) lies on every path from the combine to the hook run",
-					"the hook can be run with combined contexts that were not written back to the task: the merged tasks are already removed from the queue, so when this run fails the retry executes only the head task's own contexts and the others are lost")
-			}
-		}
+		combinedWrittenBack(c, r5, f, len(calls) > 0)
 	}
 
 	r6 := c.Rule("C04.R6", "D:provenance", "the back-off function of a queue derives from CalculateDelay(DefaultInitialDelayOnFailedTask, failureCount); CalculateDelayWithMax returns the initial delay for retry 0 and adds it to every later delay", 3)
@@ -595,4 +560,48 @@ func runC04R6(c *eng.Ctx, r *eng.RuleCtx) {
 		return true
 	})
 	r.Check(okRest, f.Key+" later-retries", f.Decl.Pos(), "later delays are initialDelay + exponential part (capped by maxDelay)", "a later delay is not built on top of the initial delay")
+}
+
+// combinedWrittenBack: after combining, t.UpdateMetadata(hookMeta) lies on every path from the store of the combined
+// contexts to handleRunHook.
+func combinedWrittenBack(c *eng.Ctx, r5 *eng.RuleCtx, f *eng.Func, combines bool) {
+	p := c.P
+	info := f.Pkg.TypesInfo
+	g := p.GraphOf(f)
+	if !combines {
+		return
+	}
+	bcField := p.Field(pkgMeta, "HookMetadata", "BindingContext")
+	combBC := p.Field(pkgOp, "CombineResult", "BindingContexts")
+	updateMeta := p.Method(pkgTask, "Task", "UpdateMetadata")
+	handleRun := p.Method(pkgOp, "ShellOperator", "handleRunHook")
+	var store *eng.GNode
+	var metaVar types.Object
+	for _, n := range g.Nodes {
+		as, ok := n.Node.(*ast.AssignStmt)
+		if ok && len(as.Lhs) == 1 && eng.IsField(info, as.Lhs[0], bcField) && eng.IsField(info, as.Rhs[0], combBC) {
+			store = n
+			if s, isS := ast.Unparen(as.Lhs[0]).(*ast.SelectorExpr); isS {
+				metaVar = eng.SelObj(info, s.X)
+			}
+		}
+	}
+	if store == nil {
+		r5.Bad(f.Key+" combined-contexts-stored", f.Decl.Pos(), "the combined binding contexts are never stored in the task metadata")
+		return
+	}
+	isUpdate := func(n *eng.GNode) bool {
+		return len(g.CallsAt(n, func(o types.Object, call *ast.CallExpr) bool {
+			return o == updateMeta && len(call.Args) == 1 && eng.SelObj(info, call.Args[0]) == metaVar
+		})) > 0
+	}
+	reach := g.Reach(eng.Query{From: []*eng.GNode{store}, AvoidNode: isUpdate})
+	bad := false
+	for n := range reach {
+		if len(g.CallsAt(n, isObj(handleRun))) > 0 {
+			bad = true
+		}
+	}
+	r5.Check(!bad, f.Key+" combined-contexts-written-back", store.Node.Pos(), "UpdateMetadata(hookMeta) lies on every path from the combine to the hook run",
+		"the hook can be run with combined contexts that were not written back to the task: the merged tasks are already removed from the queue, so when this run fails the retry executes only the head task's own contexts (and monitor ids) and the others are lost - merged Synchronizations are never delivered and their monitors never unlocked")
 }
